@@ -84,6 +84,14 @@ Definition tbl_row (t : list trow) (i : nat) : list Z := map (fun r => nth i (r_
 Definition tbl_structured (ref : doc) (t : list trow) (n : nat) : list (option doc) :=
   map (fun i => match restore_doc ref (tbl_row t i) with Some (d, _) => Some d | None => None end) (seq 0 n).
 
+(* the rows of a timestamp leaf come in pairs (true of every reference document) *)
+Fixpoint ts_paired (ts : list mtype) : bool :=
+  match ts with
+  | [] => true
+  | MTs :: r => match r with MTs :: r' => ts_paired r' | _ => false end
+  | _ :: r => ts_paired r
+  end.
+
 (* every column of the table holds n samples *)
 Definition table_wf (n : nat) (t : list trow) : Prop := Forall (fun r => length (r_col r) = n) t.
 
